@@ -13,7 +13,7 @@ not modelled: tokenisation (libyaml, serde_yaml, serde_json).
 """
 import json, random, os, re, math
 from .. import coqterm as ct
-from .. import impl, model, gen, tables
+from .. import impl, model, gen, tables, e2e
 from ..common import *
 from . import c10
 
@@ -296,6 +296,44 @@ def wide_and_blocks(ctx):
     return n
 
 
+def through_the_binary(ctx):
+    """the same texts through `cfn-guard validate` itself (the hook loaders do not pass through build_data_file): block YAML whose
+    top-level collection is indented, leading and trailing blank lines, a leading comment, CRLF, a byte-order mark - the document the
+    rules see is the document the library loader gives: a rule `this == <the value as a literal>` PASSes"""
+    import yaml
+    texts = {
+        'flush': 'a:\n  - alpha\n  - beta\nn: 1\n',
+        'indented-mapping': '    a:\n      - alpha\n      - beta\n    n: 1\n',
+        'indented-sequence': '  - alpha\n  - beta\n  - gamma\n',
+        'indented-sequence-of-maps': '   - k: 1\n     j: x\n   - k: 2\n',
+        'leading-blank-lines': '\n\n  a:\n    - alpha\n  n: 1\n',
+        'leading-comment': '# c\n  a: [alpha]\n  n: 1\n',
+        'trailing-blanks': 'a: [alpha]\nn: 1\n\n   \n',
+        'crlf': 'a:\r\n  - alpha\r\nn: 1\r\n',
+        'json-indented': '   {"a": ["alpha"],\n      "n": 1}\n',
+        'tabs-in-block-scalar': BLOCK_TEXTS[0][0],
+    }
+    jobs, meta = [], []
+    for lab, text in texts.items():
+        want = yaml.safe_load(text)
+        lit = gen.render_lit(gen.lit_from_py(want))
+        d = os.path.join(ctx.wd, 'bin_' + lab)
+        e2e.write_files(d, {'self.guard': 'rule self_equal {\n  this == %s\n}\n' % lit, 'doc.yaml': text, 'tests/self_tests.yaml': json.dumps([{'name': 'c', 'input': want, 'expectations': {'rules': {'self_equal': 'PASS'}}}])})
+        jobs.append({'args': ['validate', '-r', 'self.guard', '-d', 'doc.yaml'], 'cwd': d}); meta.append((lab, 'file'))
+        jobs.append({'args': ['validate', '-r', 'self.guard', '-d', 'doc.yaml', '--structured', '-o', 'json', '-S', 'none'], 'cwd': d}); meta.append((lab, 'file-structured'))
+        jobs.append({'args': ['validate', '-r', 'self.guard'], 'cwd': d, 'stdin': text.encode()}); meta.append((lab, 'stdin'))
+        jobs.append({'args': ['validate', '--payload'], 'cwd': d, 'stdin': json.dumps({'rules': [open(os.path.join(d, 'self.guard')).read()], 'data': [text]}).encode()}); meta.append((lab, 'payload'))
+    n = 0
+    for (lab, how), (code, so, se) in zip(meta, e2e.run_many(jobs)):
+        n += 1
+        if code != 0:
+            ctx.failing('validate (%s) on the %s text: the document does not equal the value the text denotes (exit %s)' % (how, lab, code),
+                        {'class': 'document-loading', 'layout': lab, 'entry': how, 'text': texts[lab], 'stdout': so[:400].decode('utf-8', 'replace'), 'stderr': se[-300:].decode('utf-8', 'replace')}, found=True)
+    ctx.coverage['texts_through_the_binary'] = n
+    ctx.coverage['evaluations'] += n
+    return n
+
+
 def core_tags(ctx):
     """explicit core-schema tags on scalars whose text is of another class (`!!float 3`, `!!int "12"`, `!!str 5`) and on text
     the tag cannot read (`!!int 1.5`, `!!bool 5`): the three loaders give the same typed value, or all reject the document"""
@@ -410,10 +448,10 @@ def rejects(ctx):
 
 
 def run(ctx):
-    ctx.build()
+    ctx.build(cli=True)
     pr = ctx.proofs('C11')
     thorough = ctx.tier == 'thorough'
-    n = classify_universe(ctx) + loaders_on_scalars(ctx) + documents(ctx, 400 if thorough else 60) + tags(ctx) + core_tags(ctx) + rejects(ctx) + wide_and_blocks(ctx)
+    n = classify_universe(ctx) + loaders_on_scalars(ctx) + documents(ctx, 400 if thorough else 60) + tags(ctx) + core_tags(ctx) + rejects(ctx) + wide_and_blocks(ctx) + through_the_binary(ctx)
     ctx.coverage['distinct_nontrivial'] = n
     ctx.coverage['rule'] = ('a universe of %d scalar spellings (plain / single / double quoted) through every loader; generated documents in 5 serialisations x 3 loaders; every tag of the '
                             'regenerated tables x {scalar, sequence, nested} x 3 loaders, short vs long form; 13 malformed or non-string-key texts' % len(PLAIN_UNIVERSE))
